@@ -8,6 +8,7 @@
                                    S = (dump = dump (normalize tree)) && fix = 1 && rfc_ok text
      R <w> <tree> <impl>           same with reals in the tree: the model cannot print reals, so M
                                    is the implementation's text re-read by the model
+     H <w> <t1/t2/..> <impl>       texts parsed one after the other through ONE scratch stream; impl = dump1/dump2/..
      Z ...                         deep-nesting runs are judged by the check itself *)
 
 let buf_units b (l : n list) =
@@ -156,6 +157,14 @@ let comp_json line =
         if kind = "X" then impl = "U"
         else not crashed in
       m ^ " " ^ fmt_bool verdict
+    | [kind; w; payload; impl] when kind = "H" ->
+      (* several texts through one scratch stream: M threads the stream (parse_history), the oracle
+         wants every result to be the result for that text alone *)
+      let w = n_of_string w in
+      let texts = List.map parse_list (String.split_on_char '/' payload) in
+      let m = String.concat "/" (List.map dump_res (parse_history w [] texts)) in
+      let alone = String.concat "/" (List.map (fun t -> dump_res (parse w t)) texts) in
+      m ^ " " ^ fmt_bool (impl = alone)
     | [kind; w; payload; term; impl] when kind = "G" ->
       let w = n_of_string w and units = parse_list payload in
       let tk = split_semis term in
